@@ -175,8 +175,10 @@ class EncoderSelector:
 
             return df, assignment_mgr
 
-        # Special case if there are no possible connections
-        if n_mat == 0:
+        # Special case if there are no possible connections, or at most one per existence pattern: there is nothing to
+        # choose, so no design variables are needed (independently of whether the candidates encode within the timeout)
+        if n_mat == 0 or (n_mat is not None and n_mat <= n_exist and
+                          self._get_matrix_gen().count_all_matrices(max_by_existence=True) <= 1):
             return _instantiate_manager(DEFAULT_EAGER_ENCODER())
 
         def _print_stats(i_select):
